@@ -26,7 +26,7 @@ DRIVER = "c01_bn.c"
  OP_DIV, OP_LSHIFT, OP_RSHIFT, OP_AND, OP_OR, OP_XOR, OP_BIT_SET, OP_QUERY, OP_CMP, OP_GCD,
  OP_GCD_BIN, OP_SQRT, OP_MOD, OP_MOD_ADD, OP_MOD_SUB, OP_MOD_MULT, OP_MOD_MULT_DIGIT,
  OP_MOD_SQUARE, OP_MOD_EXP, OP_MOD_EXP_DIGIT, OP_MOD_INV, OP_MOD_DIV, OP_MOD_REDUCE,
- OP_MOD_SQRT, OP_LEGENDRE, OP_NAF, OP_JSF, OP_COMBO, OP_IMPORT, OP_EXPORT, OP_DIGIT) = range(1, 40)
+ OP_MOD_SQRT, OP_LEGENDRE, OP_NAF, OP_JSF, OP_COMBO, OP_IMPORT, OP_EXPORT, OP_DIGIT, OP_INIT) = range(1, 41)
 
 OPNAME = {
     OP_ADD: "bn_add", OP_SUB: "bn_sub", OP_ADD_DIGIT: "bn_add_digit", OP_SUB_DIGIT: "bn_sub_digit",
@@ -39,7 +39,7 @@ OPNAME = {
     OP_MOD_EXP_DIGIT: "bn_mod_exp_digit", OP_MOD_INV: "bn_mod_inv", OP_MOD_DIV: "bn_mod_div",
     OP_MOD_REDUCE: "bn_mod_reduce", OP_MOD_SQRT: "bn_mod_sqrt", OP_LEGENDRE: "bn_mod_legendre",
     OP_NAF: "bn_calc_naf", OP_JSF: "bn_calc_jsf", OP_COMBO: "bn_combo_column_get",
-    OP_IMPORT: "bn_import", OP_EXPORT: "bn_export", OP_DIGIT: "bn_digit",
+    OP_IMPORT: "bn_import", OP_EXPORT: "bn_export", OP_DIGIT: "bn_digit", OP_INIT: "bn_init",
 }
 IMPEXP = ("be_bin", "le_bin", "be_hex", "le_hex")
 INVNAME = ("bn_mod_inv", "bn_mod_inv1", "bn_mod_inv2", "bn_mod_inv_mont")
@@ -581,6 +581,45 @@ def expect(c, w, L):
             return "" if o["ex_digit"][0] == res else "wrong-column"
         return Exp("must", verify=ver)
 
+    if op == OP_INIT:
+        bits = c.x[0]
+        maxd = L // w                      # BN_MAX_DIGITS: the array size, BN_BIT_LEN / digit width rounded DOWN
+        need = (bits + w - 1) // w
+
+        def ver_fail(o):
+            i = o.get("init")
+            if i and not i["behind_intact"]:
+                return "no-error-and-wrote-behind-the-object"
+            return "no-error"
+        if bits == 0:
+            return Exp("fail", verify=ver_fail, label="zero-bits")
+        if bits > L:
+            return Exp("fail", verify=ver_fail, label="beyond-BN_BIT_LEN")
+        if need > maxd:
+            return Exp("fail", verify=ver_fail, label="capacity-exceeds-array")
+        want = (1 << bits) & ((1 << (need * w)) - 1)
+        cy = 1 if bits == need * w else 0
+        null = bool(c.flags & F_NULL_CARRY)
+
+        def ver(o, need=need, want=want, cy=cy, maxd=maxd, null=null):
+            i = o.get("init")
+            if not i:
+                return "no-observation"
+            if i["maxd"] != maxd:
+                return "harness-array-size-mismatch"
+            if i["count"] != need or i["digits0"] != 0:
+                return "wrong-count-or-digits"
+            if not i["behind_intact"]:
+                return "wrote-behind-the-object"
+            if i["r1"] != 0 or i["r2"] != 0:
+                return "error-at-full-capacity"
+            if i["value"] != want or i["digits"] != nd(want, w):
+                return "wrong-value-at-full-capacity"
+            if not null and (o["carry_junk"] or o["carry"] != cy):
+                return "wrong-carry"
+            return ""
+        return Exp("must", verify=ver, label="top-partial-digit" if L % w and need == maxd else "")
+
     if op == OP_IMPORT:
         return _expect_import(c, w, L, V, C, S)
     if op == OP_EXPORT:
@@ -769,6 +808,10 @@ def parse_run(blob, c, w):
         e = PR(ex)
         o["q"] = {"bit": e.u8(), "bits": e.u64(), "ctz": e.u64(), "clz": e.u64(), "zero": e.u8(),
                   "one": e.u8(), "even": e.u8(), "odd": e.u8(), "pow2": e.u8()}
+    if c.op == OP_INIT and len(ex) >= 41:
+        e = PR(ex)
+        o["init"] = {"maxd": e.u64(), "count": e.u64(), "digits0": e.u64(), "r1": e.i32(), "r2": e.i32(),
+                     "digits": e.u64(), "behind_intact": e.u8(), "value": int.from_bytes(e.blob(), "little")}
     if c.op in (OP_COMBO, OP_DIGIT):
         o["ex_digit"] = [int.from_bytes(ex[i:i + 16], "little") for i in range(0, len(ex) - 15, 16)]
         o["ex_u64"] = [int.from_bytes(ex[i:i + 8], "little") for i in range(0, len(ex) - 7, 8)]
@@ -1271,6 +1314,11 @@ def gen_case(rng, pool):
             if rng.chance(1, 40):
                 txt = ""
             buf = txt.encode()
+            if rng.chance(1, 4):                           # any byte that is not a hex digit is skipped
+                bb = bytearray(buf)
+                for _ in range(rng.range(1, 6)):
+                    bb.insert(rng.below(len(bb) + 1), NONHEX[rng.below(len(NONHEX))])
+                buf = bytes(bb)
         ops, slots = [(ca, prior)], [0]
         x[0] = kind
     elif op == OP_EXPORT:
@@ -1643,9 +1691,12 @@ HANG_LIMIT = 6
 def work_chunk(job):
     """job: dict(seed, chunk, n, pool, variants=[(vdict, exe)]) - all variants share one digit width"""
     part = common.new_part()
-    cases = gen_chunk(job["seed"], job["chunk"], job["n"], job["pool"])
+    cases = [] if job.get("directed") else gen_chunk(job["seed"], job["chunk"], job["n"], job["pool"])
     for v, exe in job["variants"]:
-        sel = [c for c in cases if c.maxcap() <= v["L"]]
+        if job.get("directed"):
+            cases = directed_cases(job["seed"], v["w"], v["L"])
+        # capacities must exist in this build: bits <= BN_BIT_LEN and whole digits <= BN_MAX_DIGITS
+        sel = [c for c in cases if c.maxcap() <= v["L"] and cnt(c.maxcap(), v["w"]) <= v["L"] // v["w"]]
         if v.get("light"):
             sel = [c for c in sel if not heavy(c)]
         if not sel:
@@ -1710,6 +1761,51 @@ def work_chunk(job):
     part["violations"] = vv
     part["viol_counts"] = counts
     return part
+
+
+NONHEX = bytes(b for b in range(256) if b not in HEXCH)
+
+
+def directed_cases(seed, w, L):
+    """Deterministic sweeps that every build variant gets in every run:
+    (1) bn_init() for every bit count around the digit and BN_BIT_LEN boundaries (matters when
+        BN_BIT_LEN is not a multiple of the digit width: the array has BN_BIT_LEN / width digits,
+        rounded down);
+    (2) hex import with EVERY byte value that is not a hex digit used as garbage, at the ends,
+        between bytes and between the two nibbles of a byte, for both byte orders."""
+    rng = Rng(seed, PROP, "directed", w, L)
+    out = []
+    maxd = L // w
+    bitset = {0, 1, 2, 7, 8, 9, w - 1, w, w + 1, 2 * w, L - 1, L, L + 1, L + 2, L + w, 2 * L, 1 << 20}
+    bitset.update(range(max(1, maxd * w - 2), L + 3))
+    bitset.update(range(max(1, (maxd - 1) * w - 1), (maxd - 1) * w + 2))
+    for bits in sorted(b for b in bitset if b >= 0):
+        c = Case(OP_INIT, [], [], [bits, 0, 0], tag="sweep")
+        c.patA, c.patB = 2 + (bits * 7) % 250, 3 + (bits * 11 + 5) % 249
+        if c.patA == c.patB:
+            c.patB = 2 + (c.patB + 1) % 250
+        out.append(c)
+    cap = min(128, maxd * w)
+    nby = cap // 8
+    for g in NONHEX:
+        gb = bytes([g])
+        for kind in (2, 3):
+            v = rng.bits(8 * min(nby, 4)) | 1
+            txt = v.to_bytes(min(nby, 4), "big").hex().encode()
+            if rng.chance(1, 2):
+                txt = txt.upper()
+            lay = [
+                txt[:2] + gb + gb + txt[2:],                                   # between bytes, doubled
+                gb + gb.join(txt[i:i + 1] for i in range(len(txt))) + gb,      # around every nibble
+                gb + txt + gb,                                                 # both ends
+            ]
+            for t in lay:
+                c = Case(OP_IMPORT, [(cap, 0)], [0], [kind, 0, 0], buf=t, tag="garbage-sweep")
+                c.patA, c.patB = 2 + g % 200, 40 + (g * 3) % 200
+                if c.patA == c.patB:
+                    c.patB += 1
+                out.append(c)
+    return out
 
 
 def heavy(c):
@@ -1786,6 +1882,9 @@ def matrix(tier):
         vs.append(V(8, False, "plain", "clang", "-O3", L=256))
         vs.append(V(64, True, "plain", "clang", "-O0", L=256))
         vs.append(V(32, False, "plain", "clang", "-O2", L=256))
+        # BN_BIT_LEN that is not a multiple of the digit width: num[] has BN_BIT_LEN / width digits, rounded down
+        vs.append(V(64, True, "asu", L=160))
+        vs.append(V(32, False, "plain", "gcc", "-O2", L=521))
         return vs
     for w, cc in WIDTHS:
         for comp in ("gcc", "clang"):
@@ -1795,6 +1894,11 @@ def matrix(tier):
         vs.append(V(w, cc, "plain", "gcc" if w in (8, 32, 128) else "clang", "-O2", L=256))
     for w, cc in ((8, False), (16, True), (64, True), (64, False), (128, False)):
         vs.append(V(w, cc, "msan", "clang"))
+    vs.append(V(64, True, "asu", L=160))
+    vs.append(V(32, False, "plain", "gcc", "-O2", L=521))
+    vs.append(V(64, False, "plain", "clang", "-O2", L=521))
+    vs.append(V(128, False, "plain", "gcc", "-O2", L=1000))
+    vs.append(V(16, True, "asu", L=521))
     for w, cc in ((8, False), (64, True)):
         vs.append(V(w, cc, "plain", "gcc", "-O2", extra=("-ftrivial-auto-var-init=pattern",)))
         vs.append(V(w, cc, "plain", "gcc", "-O2", extra=("-ftrivial-auto-var-init=zero",)))
@@ -1869,6 +1973,10 @@ def run(tier):
             for i in range(0, len(lst), 6):
                 jobs.append({"seed": seed, "chunk": ch, "n": per, "pool": pool, "variants": lst[i:i + 6],
                              "hangdir": hangdir})
+    for w, lst in sorted(by_w.items()):
+        for i in range(0, len(lst), 6):
+            jobs.append({"seed": seed, "chunk": -1, "n": 0, "pool": None, "variants": lst[i:i + 6],
+                         "hangdir": hangdir, "directed": True})
     # exhaustive slices on the 8-bit plain builds (both multiply/divide implementations)
     ejobs = []
     exh_variants = [(v, exe) for v, exe in live
